@@ -33,10 +33,9 @@ class SCSICommand(metaclass=ExMETA):
         :param dataout_alloclen: integer representing the size of the data_out buffer
         :param datain_alloclen: integer representing the size of the data_in buffer
         """
-        # we need the _cdb_bits and _cdb values in staticmethods so we have to set it
-        # on the class and not on the instance of the class. that might be wrong ...
-        SCSICommand._cdb_bits = self._cdb_bits
-        SCSICommand._cdb = SCSICommand.init_cdb(opcode)
+        # only checks that the opcode has a fixed cdb length (raises OpcodeException otherwise);
+        # marshall_cdb/unmarshall_cdb are classmethods that use the layout of their own class
+        SCSICommand.init_cdb(opcode)
         self.dataout = bytearray(dataout_alloclen)
         self.datain = bytearray(datain_alloclen)
         self.result = {}
@@ -52,18 +51,19 @@ class SCSICommand(metaclass=ExMETA):
         init a byte array representing a command descriptor block with fixed length
         depending on the Opcode
 
-        :param opcode: a OpCode object
+        :param opcode: a OpCode object, or the value of the operation code
         :return: a byte array
         """
-        if 0x00 <= opcode.value <= 0x1F:
+        value = getattr(opcode, "value", opcode)
+        if 0x00 <= value <= 0x1F:
             cdb = bytearray(6)
-        elif 0x20 <= opcode.value <= 0x5F:
+        elif 0x20 <= value <= 0x5F:
             cdb = bytearray(10)
-        elif 0x00 <= opcode.value <= 0x1F:
+        elif 0x00 <= value <= 0x1F:
             raise SCSICommand.OpcodeException
-        elif 0x80 <= opcode.value <= 0x9F:
+        elif 0x80 <= value <= 0x9F:
             cdb = bytearray(16)
-        elif 0xA0 <= opcode.value <= 0xBF:
+        elif 0xA0 <= value <= 0xBF:
             cdb = bytearray(12)
         else:
             raise SCSICommand.OpcodeException
@@ -217,20 +217,20 @@ class SCSICommand(metaclass=ExMETA):
         for b in self._cdb:
             print("0x%02X " % b)
 
-    @staticmethod
-    def marshall_cdb(cdb):
+    @classmethod
+    def marshall_cdb(cls, cdb):
         """
         Marshall an SCSICommand cdb
 
         :param cdb: a dict with key:value pairs representing a code descriptor block
         :return result: a byte array representing a code descriptor block
         """
-        result = bytearray(len(SCSICommand._cdb))
-        encode_dict(cdb, SCSICommand._cdb_bits, result)
+        result = cls.init_cdb(cdb["opcode"])
+        encode_dict(cdb, cls._cdb_bits, result)
         return result
 
-    @staticmethod
-    def unmarshall_cdb(cdb):
+    @classmethod
+    def unmarshall_cdb(cls, cdb):
         """
         Unmarshall an SCSICommand cdb
 
@@ -238,7 +238,7 @@ class SCSICommand(metaclass=ExMETA):
         :return result: a dict
         """
         result = {}
-        decode_bits(cdb, SCSICommand._cdb_bits, result)
+        decode_bits(cdb, cls._cdb_bits, result)
         return result
 
     def build_cdb(self, **kwargs):
@@ -249,7 +249,7 @@ class SCSICommand(metaclass=ExMETA):
         :return: a byte array representing a code descriptor block
         """
         cdb = {key: kwargs[key] for key in kwargs.keys()}
-        return SCSICommand.marshall_cdb(cdb)
+        return self.marshall_cdb(cdb)
 
     def unmarshall(self, **kwargs):
         """
